@@ -407,24 +407,28 @@ def _reactants_of(prog):
 
 
 def presence(prog, tagged, phase, flows):
-    """Which flows are planted.  'first-pos': the first reaction's reactant is certainly fed, every other chemical
-    taking part may be absent; 'maybe': every chemical taking part may be absent (including an empty stream);
-    plus, for phase-tagged reactions, one bystander flow in a phase the reactions do not touch."""
-    keys = _keys_of(prog)
+    """
+    Which flows are planted (all others are 0).
+      'lean'      the first reaction's reactant is certainly fed, the reactants of the other reactions may be absent,
+                  plus one bystander that takes no part (phase-tagged: a chemical in a phase the reactions do not name);
+      'first-pos' the first reactant is certainly fed, every other chemical taking part may be absent, one bystander;
+      'maybe'     every chemical taking part may be absent (the stream may be empty).
+    """
+    keys = list(dict.fromkeys(_keys_of(prog)))
+    reactants = list(dict.fromkeys(_reactants_of(prog)))
     p = {}
-    for k in keys: p[k] = 'maybe'
-    if flows == 'first-pos':
-        p[_reactants_of(prog)[0]] = 'pos'
-    if tagged:
-        used = set(keys)
-        for ID in IDS:
-            for ph in PH:
-                if (ph, ID) not in used:
-                    p[ph, ID] = 'maybe'
-                    return p
+    if flows == 'lean':
+        for k in reactants: p[k] = 'maybe'
+        p[reactants[0]] = 'pos'
     else:
-        for ID in IDS:
-            p.setdefault((None, ID), 'maybe')
+        for k in keys: p[k] = 'maybe'
+        if flows == 'first-pos': p[reactants[0]] = 'pos'
+    used = set(keys)
+    for ID in reversed(IDS):
+        for ph in (PH if tagged else (None,)):
+            if (ph, ID) not in used:
+                p[ph, ID] = 'maybe'
+                return p
     return p
 
 
@@ -529,7 +533,7 @@ def dH(w, cfg):
     w.ensure('package Hf array unchanged', w.all_eq(list(chems.Hf), Hf0))
 
 
-# =========================================================================== 2. Stream.Hf / Stream.Hnet (loop-free)
+# =========================================================================== 2. Stream.Hf / Stream.Hnet
 
 def hf_configs(tier):
     out = []
@@ -539,7 +543,7 @@ def hf_configs(tier):
     return out
 
 
-@group('C06/Hf_Hnet', configs=hf_configs, l0=True, loop_free=True,
+@group('C06/Hf_Hnet', configs=hf_configs, l0=True,
        functions=['thermosteam._stream:Stream.Hf', 'thermosteam._stream:Stream.Hnet', 'thermosteam._stream:Stream.H',
                   'thermosteam._multi_stream:MultiStream.mol', 'thermosteam._multi_stream:MultiStream.H',
                   'thermosteam._chemicals:CompiledChemicals._compile'],
@@ -569,21 +573,41 @@ def Hf_Hnet(w, cfg):
 # =========================================================================== 3. isothermal reaction
 
 def _stream_cfgs(tier, what):
+    """(reaction structure) x (plain | phase-tagged) x basis x stream package x presence pattern x feed phase."""
     out = []
+    adia = what == 'adia'
+    quick = tier == 'quick'
     for tagged in (False, True):
         progs = programs(tier, tagged)
         for pname, prog in progs.items():
-            multi = _n_rxns(prog) >= 2 or what == 'adia'
-            variants = [('mol', 'P', 'first-pos')]
-            if pname in ('single[a>bc]', 'parallel[a>b|b>c]', 'series[a>b;b>c]') or tier == 'thorough':
-                variants += [('wt', 'P', 'first-pos'), ('mol', 'Q', 'first-pos')]
-            if pname in ('single[a>bc]',) or tier == 'thorough':
-                variants += [('mol', 'P', 'maybe'), ('wt', 'Q', 'first-pos')]
-            for basis, pkg, flows in variants:
-                for phase in (('l', 'g') if (not tagged and pname == 'single[a>bc]' and basis == 'mol' and pkg == 'P' and flows == 'first-pos') else ('l',)):
-                    nm = f'{"tagged" if tagged else "plain"};{pname};{basis};pkg={pkg};flows={flows}' + ('' if tagged else f';phase={phase}') + (';unit' if multi else '')
-                    out.append({'name': nm, 'tagged': tagged, 'prog': prog, 'basis': basis, 'pkg': pkg, 'flows': flows,
-                                'phase': phase, 'unit': multi, 'refs': 'lgs' if tagged else None})
+            # symbolic stoichiometric coefficients for single reactions; for reaction sets (and under the temperature solve
+            # of the adiabatic method) the coefficients are numbers of the configuration (X, flows, Hf, ... stay symbolic)
+            fixed = _n_rxns(prog) >= 2 or adia
+            single = pname == 'single[a>bc]'
+            variants = [('mol', 'P', 'lean', 'l')]
+            if quick:
+                if single:
+                    variants += [('wt', 'P', 'lean', 'l'), ('mol', 'Q', 'lean', 'l')]
+                    if not tagged: variants += [('mol', 'P', 'lean', 'g')]
+                    if not tagged and not adia: variants += [('mol', 'P', 'maybe', 'l')]
+                if pname in ('parallel[a>b|b>c]', 'series[a>b;b>c]') and not adia:
+                    variants += [('wt', 'Q', 'lean', 'l')]
+                if adia and not (single or (pname == 'parallel[a>b|b>c]' and not tagged)):
+                    continue      # adiabatic_reaction is one function shared by all reaction classes; the sets differ only
+                                  # in the isothermal call, which C06/isothermal covers; the other sets run in the thorough tier
+            elif adia:
+                variants += [('wt', 'Q', 'lean', 'l')]
+                if single: variants += [('wt', 'P', 'lean', 'l'), ('mol', 'Q', 'lean', 'l'), ('mol', 'P', 'first-pos', 'l'), ('mol', 'P', 'maybe', 'l')]
+                if single and not tagged: variants += [('mol', 'P', 'lean', 'g')]
+            else:
+                variants = [(b, k, f, 'l') for b in ('mol', 'wt') for k in ('P', 'Q') for f in ('lean', 'first-pos')]
+                variants += [('mol', 'P', 'maybe', 'l')]
+                if not tagged: variants += [('mol', 'P', 'lean', 'g'), ('wt', 'Q', 'first-pos', 'g')]
+            for basis, pkg, flows, phase in variants:
+                nm = (f'{"tagged" if tagged else "plain"};{pname};{basis};pkg={pkg};flows={flows}' + ('' if tagged else f';phase={phase}')
+                      + (';fixed-nu' if fixed else ''))
+                out.append({'name': nm, 'tagged': tagged, 'prog': prog, 'basis': basis, 'pkg': pkg, 'flows': flows,
+                            'phase': phase, 'unit': fixed, 'refs': 'lgs' if tagged else None})
     return out
 
 
@@ -675,10 +699,9 @@ def isothermal(w, cfg):
 
 
 def literal_configs(tier):
-    keep = ('plain;single[a>bc];mol;pkg=P;flows=first-pos;phase=l', 'plain;single[a>bc];wt;pkg=P;flows=first-pos;phase=l',
-            'tagged;single[a>bc];mol;pkg=P;flows=first-pos', 'plain;parallel[a>b|b>c];mol;pkg=P;flows=first-pos;phase=l;unit',
-            'plain;series[a>b;b>c];mol;pkg=P;flows=first-pos;phase=l;unit')
-    return [c for c in _stream_cfgs('quick', 'iso') if c['name'] in keep]
+    keep = ('plain;single[a>bc];mol;pkg=P;flows=lean;phase=l', 'tagged;single[a>bc];mol;pkg=P;flows=lean',
+            'plain;parallel[a>b|b>c];mol;pkg=P;flows=lean;phase=l;fixed-nu')
+    return [dict(c, unit=True, name=c['name'].replace(';fixed-nu', '') + ';fixed-nu') for c in _stream_cfgs('quick', 'iso') if c['name'] in keep]
 
 
 @group('C06/isothermal_literal', configs=literal_configs, l0=True, functions=_STREAM_FUNCS, assumptions=['A-models'])
@@ -692,14 +715,16 @@ def isothermal_literal(w, cfg):
 def adia_configs(tier):
     out = []
     for c in _stream_cfgs(tier, 'adia'):
-        for q in ('Q', 'default'):
-            for fail in (0, 1):
-                if tier == 'quick' and (q == 'default' or fail) and not (c['name'].startswith(('plain;single[a>bc];mol;pkg=P;flows=first-pos', 'tagged;single[a>bc];mol;pkg=P;flows=first-pos',
-                                                                                            'plain;parallel[a>b|b>c];mol;pkg=P'))):
-                    continue
-                if c['flows'] == 'maybe' and fail:
-                    continue
-                out.append(dict(c, name=c['name'] + f';Q={q};fail={fail}', Q=q, fail=fail))
+        base = c['basis'] == 'mol' and c['pkg'] == 'P' and c['flows'] == 'lean' and c['phase'] == 'l'
+        single = 'single[a>bc]' in c['name']
+        combos = [('Q', 0)]
+        if base and single:
+            combos += [('Q', 1)] + ([('default', 0)] if not c['tagged'] or tier == 'thorough' else [])
+            if tier == 'thorough': combos += [('default', 1)]
+        elif base and tier == 'thorough':
+            combos += [('Q', 1)]
+        for q, fail in combos:
+            out.append(dict(c, name=c['name'] + f';Q={q};fail={fail}', Q=q, fail=fail))
     out.append({'name': 'not-a-stream', 'tagged': False, 'prog': programs('quick', False)['single[a>bc]'], 'basis': 'mol', 'pkg': 'P',
                 'flows': 'first-pos', 'phase': 'l', 'unit': False, 'refs': None, 'Q': 'Q', 'fail': 0, 'notstream': True})
     return out
@@ -761,3 +786,93 @@ def adiabatic(w, cfg):
     w.canary('canary: Hnet after = Hnet before + Q + 1', w.eq(Hnet1, Hnet0 + Q + 1))
     w.canary('canary: T never moves', w.eq(s.T, T0))
     w.note(Hnet0=Hnet0, Hnet1=Hnet1, T0=T0, T=s.T, log=list(log))
+
+
+# =========================================================================== 5. bounded: real chemicals, real solvers (mode B)
+
+REAL = [  # (reaction, reactant, chemicals); stoichiometry completed by correct_atomic_balance
+    ('H2 + O2 -> H2O', 'H2', ('H2', 'O2', 'H2O')),
+    ('CH4 + O2 -> CO2 + H2O', 'CH4', ('CH4', 'O2', 'CO2', 'H2O')),
+    ('Ethanol + O2 -> CO2 + H2O', 'Ethanol', ('Ethanol', 'O2', 'CO2', 'H2O')),
+    ('Methanol + O2 -> CO2 + H2O', 'Methanol', ('Methanol', 'O2', 'CO2', 'H2O')),
+    ('CO + O2 -> CO2', 'CO', ('CO', 'O2', 'CO2')),
+    ('CO + H2O -> CO2 + H2', 'CO', ('CO', 'H2O', 'CO2', 'H2')),
+    ('Glucose -> Ethanol + CO2', 'Glucose', ('Glucose', 'Ethanol', 'CO2', 'H2O')),
+    ('Ethanol -> Ethylene + H2O', 'Ethanol', ('Ethanol', 'Ethylene', 'H2O')),
+    ('AceticAcid + Ethanol -> EthylAcetate + H2O', 'AceticAcid', ('AceticAcid', 'Ethanol', 'EthylAcetate', 'H2O')),
+    ('N2 + H2 -> NH3', 'N2', ('N2', 'H2', 'NH3')),
+    ('Propane + O2 -> CO2 + H2O', 'Propane', ('Propane', 'O2', 'CO2', 'H2O')),
+    ('CO + H2 -> Methanol', 'CO', ('CO', 'H2', 'Methanol')),
+]
+W.preload([ids for _, _, ids in REAL])
+
+
+def real_configs(tier):
+    out = []
+    Ts = (280., 350., 450.) if tier == 'quick' else (280., 298.15, 320., 350., 400., 450.)
+    for n, (rx, reactant, ids) in enumerate(REAL):
+        for phase in 'lg':
+            if phase == 'g' and 'Glucose' in ids: continue          # glucose has no vapour model (locked solid)
+            for T in Ts:
+                for basis, X, Q in ((('mol', 0.6, 2.5e4),) if tier == 'quick' else (('mol', 0.6, 2.5e4), ('wt', 1.0, -1.0e4), ('mol', 0.25, 0.))):
+                    out.append({'name': f'{n}:{rx};feed={phase};T={T:g};{basis};X={X:g};Q={Q:g}', 'n': n, 'phase': phase, 'T': T,
+                                'basis': basis, 'X': X, 'Q': Q, 'kind': 'stream'})
+        out.append({'name': f'{n}:{rx};reference state', 'n': n, 'kind': 'reference', 'basis': 'mol', 'X': 0.6})
+    return out
+
+
+@group('C06/real_reactions', configs=real_configs, mode='B',
+       functions=[RXN + 'Reaction.dH', RXN + 'Reaction.__call__', RXN + 'Reaction.adiabatic_reaction', 'thermosteam._stream:Stream.Hnet',
+                  'thermosteam._stream:Stream.Hf', 'thermosteam._stream:Stream.H', 'thermosteam.mixture.mixture:Mixture.solve_T_at_HP'],
+       notes='12 real reactions (combustions, fermentation, shift, esterification, syntheses) of the bundled database x feed phase l/g '
+             'x T in {280..450 K} x basis/conversion/heat input; real property models and the real temperature solver; plus each '
+             'reaction phase-tagged at 298.15 K with every chemical in its reference phase (where the literal sentence '
+             '"Hnet changes by dH * reactant fed" applies without sensible heat)')
+def real_reactions(w, cfg):
+    rx, reactant, ids = REAL[cfg['n']]
+    th = W.thermo(ids)
+    chems = th.chemicals
+    X, basis = cfg['X'], cfg['basis']
+    data = {c.ID: {'Hf': c.Hf, 'MW': c.MW, 'ref': c.phase_ref, 'Hfus': c.Hfus or 0.,
+                   'Hvap298': (c.Hvap(T_REF) if not c.locked_state else 0.)} for c in chems}
+    if cfg['kind'] == 'reference':
+        # the reaction written with every chemical in its reference phase, on a multi-phase stream at 298.15 K
+        plain = tmo.Reaction(rx, reactant=reactant, X=X, chemicals=chems, correct_atomic_balance=True)
+        refs = {c.ID: c.phase_ref for c in chems}
+        nu = {ID: float(plain.istoichiometry[ID]) for ID in ids if plain.istoichiometry[ID]}
+        phases = tuple(sorted(set(refs.values()) | {'g', 'l'}))
+        rxn = tmo.Reaction({ID: (refs[ID], v) for ID, v in nu.items()}, reactant=reactant, X=X, chemicals=chems, phases=phases)
+        s = tmo.MultiStream(None, phases=phases, thermo=th, T=T_REF)
+        for n, ID in enumerate(ids):
+            s.imol[refs[ID], ID] = 10. if ID == reactant else (60. if nu.get(ID, 0.) < 0 else 2. + n)
+        sp = Spec({(refs[ID], ID): v for ID, v in nu.items()}, (refs[reactant], reactant), X, 'mol')
+        Hnet0 = s.Hnet
+        w.ensure('dH = X * sum nu_k (Hf_k + latent_k)', w.eq(rxn.dH, spec_dH(sp, data)))
+        w.ensure('no latent heat when every chemical is in its reference phase', w.eq(rxn.dH, plain.dH))
+        rxn(s)
+        w.ensure('literal at the reference state: Hnet after - Hnet before = dH * reactant fed', w.eq(s.Hnet - Hnet0, rxn.dH * 10.))
+        w.ensure('T unchanged', w.eq(s.T, T_REF))
+        w.note(dH=rxn.dH, Hnet0=Hnet0, Hnet1=s.Hnet)
+        return
+    rxn = tmo.Reaction(rx, reactant=reactant, X=X, chemicals=chems, correct_atomic_balance=True)
+    if basis == 'wt': rxn.basis = 'wt'
+    nu = {ID: float(rxn.istoichiometry[ID]) for ID in ids if rxn.istoichiometry[ID]}
+    sp = Spec({(None, ID): v for ID, v in nu.items()}, (None, reactant), X, basis)
+    dh = rxn.dH
+    w.ensure('dH = X * sum nu_k Hf_k [/MW_k]', w.eq(dh, spec_dH(sp, data)))
+    flows = {ID: (10. if ID == reactant else (60. if nu.get(ID, 0.) < 0 else 2. + n)) for n, ID in enumerate(ids)}
+    s = tmo.Stream(None, thermo=th, phase=cfg['phase'], T=cfg['T'], **flows)
+    s2 = s.copy()
+    fed = flows[reactant] * (data[reactant]['MW'] if basis == 'wt' else 1.)
+    H0, Hnet0 = s.H, s.Hnet
+    rxn(s)
+    w.ensure('isothermal: T unchanged', w.eq(s.T, cfg['T']))
+    w.ensure('(Hnet - H) after - (Hnet - H) before = dH * reactant fed', w.eq((s.Hnet - s.H) - (Hnet0 - H0), dh * fed))
+    w.ensure('reactant consumed = X * fed', w.eq(s.imol[reactant], flows[reactant] * (1. - X)))
+    Q = cfg['Q']
+    Hnet0 = s2.Hnet
+    if Q: rxn.adiabatic_reaction(s2, Q)
+    else: rxn.adiabatic_reaction(s2)
+    w.ensure('adiabatic: Hnet after = Hnet before + Q', w.eq(s2.Hnet, Hnet0 + Q))
+    w.ensure('adiabatic: same material as the isothermal reaction', w.And(*[w.eq(s2.imol[ID], s.imol[ID]) for ID in ids]))
+    w.note(dH=dh, T_out=s2.T, phase_out=s2.phase, Hnet0=Hnet0, Hnet1=s2.Hnet)
